@@ -67,7 +67,8 @@ pub fn parse_import(it: &mut LexIterator) -> ParseResult {
 
     let end = it.eat(&Token::Import, "import")?;
     let mut import = vec![];
-    it.peek_while_not_tokens(&[Token::As, Token::NL], &mut |it, _| {
+    let end_of_names = [Token::As, Token::NL, Token::Dedent, Token::Eof];
+    it.peek_while_not_tokens(&end_of_names, &mut |it, _| {
         import.push(*it.parse(&parse_id, "import", start)?);
         it.eat_if(&Token::Comma);
         Ok(())
@@ -75,7 +76,8 @@ pub fn parse_import(it: &mut LexIterator) -> ParseResult {
 
     let alias = if it.eat_if(&Token::As).is_some() {
         let mut alias = vec![];
-        it.peek_while_not_token(&Token::NL, &mut |it, lex| match lex.token {
+        let end_of_aliases = [Token::NL, Token::Dedent, Token::Eof];
+        it.peek_while_not_tokens(&end_of_aliases, &mut |it, lex| match lex.token {
             Token::Id(_) => {
                 alias.push(*it.parse(&parse_id, "as", start)?);
                 it.eat_if(&Token::Comma);
